@@ -543,25 +543,28 @@ func translate(ctx *context, args []Datum) (retLit Datum) {
 		return NewLiteralDatum(src)
 	}
 
-	var toChar string
-	var alreadyTranslated = make(map[string]bool)
-	for index, fromChar := range from {
-		// Ensure we don't translate twice.
-		if _, present := alreadyTranslated[string(fromChar)]; present {
-			continue
+	// Every character of src is mapped on its own (simultaneously, never
+	// re-translating a replacement): the first occurrence in 'from' decides,
+	// a character without counterpart in 'to' is removed.
+	fromChars := []rune(from)
+	toChars := []rune(to)
+	var b bytes.Buffer
+	for _, c := range src {
+		index := -1
+		for i, fromChar := range fromChars {
+			if fromChar == c {
+				index = i
+				break
+			}
 		}
-		alreadyTranslated[string(fromChar)] = true
-
-		// Work out required replacement / removal
-		if index < len(to) {
-			toChar = to[index : index+1]
-		} else {
-			toChar = ""
+		switch {
+		case index < 0:
+			b.WriteRune(c)
+		case index < len(toChars):
+			b.WriteRune(toChars[index])
 		}
-
-		src = strings.Replace(src, string(fromChar), toChar,
-			-1 /* replace all */)
 	}
+	src = b.String()
 
 	return NewLiteralDatum(src)
 }
